@@ -216,3 +216,8 @@ def py_judge(params, sigma, targs, top, pre=None):
         if not py_within(a, tp.substitute_type(p.bound, sigma), top):
             bad.append((str(p), "outside-bound"))
     return bad
+
+
+def refsub_sub(s, t):
+    import refsub
+    return refsub.sub(s, t)
